@@ -1580,6 +1580,10 @@ func (ctx Ctx) defineStmt(s *ast.AssignStmt) coq.Binding {
 			ctx.nope(lhsExpr, "defining a non-identifier")
 		}
 	}
+	if len(idents) > 4 {
+		// the printer only has let-patterns for up to 4 names
+		ctx.unsupported(s, "destructuring more than 4 return values")
+	}
 	var names []string
 	for _, ident := range idents {
 		names = append(names, ident.Name)
@@ -1782,6 +1786,9 @@ func (ctx Ctx) multipleAssignStmt(s *ast.AssignStmt) coq.Binding {
 		ctx.unsupported(s, "%v multiple assignment", s.Tok)
 	}
 
+	if len(s.Lhs) > 4 {
+		ctx.unsupported(s, "assigning more than 4 return values")
+	}
 	names := make([]string, len(s.Lhs))
 	for i := 0; i < len(names); i += 1 {
 		names[i] = fmt.Sprintf("%d_ret", i)
